@@ -382,14 +382,14 @@ def run(tier: str, replay: str | None = None):
         cases = [json.loads(Path(replay).read_text())["input"]]
     else:
         cases = list(load_corpus())
-        n = 1200 if tier == "quick" else 12000
+        n = 24000 if tier == "quick" else 90000
         for _ in range(n):
-            t = gen_type(rng, 3)
+            t = gen_type(rng, 4 if rng.random() < 0.3 else 3)
             try:
                 T = eval(t, ns)
             except Exception:
                 continue
-            cases.append({"type": t, "obj": G.fix_labels(gen_obj_for(rng, T))})
+            cases.append({"type": t, "obj": G.fix_labels(gen_obj_for(rng, T, 3 if rng.random() < 0.4 else 2))})
 
     rows, oof = [], 0
     hist = {"impl_true": 0, "impl_false": 0, "type_heads": {}, "obj_kinds": {}}
@@ -417,7 +417,7 @@ def run(tier: str, replay: str | None = None):
         src = literal_source(r["case"]["obj"])
         if src is not None and "*tuple" not in r["case"]["type"]:
             progs.append((i, r["case"]["type"], src))
-    limit = 250 if tier == "quick" else 2500
+    limit = 3500 if tier == "quick" else 12000
     if not replay:
         progs = progs[:limit]
     e2e_other = []
@@ -436,7 +436,7 @@ def run(tier: str, replay: str | None = None):
     model_ok = proof is not None and not any("build failed" in b or "forbidden" in b for b in proof.broken)
     if model_ok:
         try:
-            results = lib.coq_eval(HEADER, [r["term"] for r in rows], name="c03", shard=150 if tier == "quick" else 400, jobs=6)
+            results = lib.coq_eval(HEADER, [r["term"] for r in rows], name="c03", shard=400, jobs=6)
             for r, res in zip(rows, results):
                 ca, mem, (variadic, dedup, _fro, nonstr, strb) = res[0], res[1], res[2]
                 r["model"], r["spec"] = ca, mem
@@ -495,7 +495,7 @@ def run(tier: str, replay: str | None = None):
     rep.coverage.update(
         evaluations=len(rows) + n_e2e,
         distinct_nontrivial=len(distinct),
-        rule="a case = (static type expression up to depth 3, object of the universe up to depth 2, biased towards members and near misses); "
+        rule="a case = (static type expression up to depth 3-4, object of the universe up to depth 2-3, biased towards members and near misses); "
         "compared: is_assignable vs model ca, Coq spec member vs CPython oracle, is_assignable vs oracle, and for objects with a literal display "
         "the checker's incompatible_assignment verdict on `x: T = <literal>` vs oracle; every case with a container or non-class type is non-trivial",
         samples=[r["case"] for r in rows[:4]],
